@@ -18,7 +18,7 @@ Step ==
         /\ phase' = [i \in T |-> "built"] /\ handle' = [i \in T |-> "held"]
         /\ start' = [i \in T |-> "none"] /\ sval' = [i \in T |-> FALSE]
         /\ clr' = [i \in T |-> "none"] /\ woken' = [i \in T |-> TRUE]
-        /\ outs' = [i \in T |-> <<>>]
+        /\ outs' = [i \in T |-> <<>>] /\ wrong' = [i \in T |-> FALSE]
         /\ tid' = [i \in T |-> 0] /\ UNCHANGED seen
      \/ /\ Line.e = "t" /\ Line.a = "poll"
         /\ LET i == Line.i IN
@@ -30,12 +30,20 @@ Step ==
            /\ \A k \in DOMAIN Line.outs :
                 /\ Line.outs[k].k = "eff_start" => Line.outs[k].id \notin seen
                 /\ Line.outs[k].k = "eff_clear" => Line.outs[k].id = tid[i]
+                \* a completed timer hands the app a handle that names itself
+                /\ Line.outs[k].k = "ev_completed" => Line.outs[k].id = tid[i]
            /\ tid' = IF \E k \in DOMAIN Line.outs : Line.outs[k].k = "eff_start"
                      THEN [tid EXCEPT ![i] = Line.outs[CHOOSE k \in DOMAIN Line.outs : Line.outs[k].k = "eff_start"].id]
                      ELSE tid
            /\ seen' = seen \cup {Line.outs[k].id : k \in {j \in DOMAIN Line.outs : Line.outs[j].k = "eff_start"}}
      \/ /\ Line.e = "t" /\ Line.a = "fire"
         /\ Line.res = FireResult(Line.i) /\ ShellFires(Line.i) /\ UNCHANGED <<tid, seen>>
+     \/ /\ Line.e = "t" /\ Line.a = "fire_wrong" /\ Line.res = "ok"
+        /\ ShellFiresWrong(Line.i) /\ UNCHANGED <<tid, seen>>
+     \* the poll in which a task finds an answer that names another timer ends in a panic (and the case with it)
+     \/ /\ Line.e = "panic" /\ Line.step.a = "poll"
+        /\ LET o == NewOutputs(Line.step.i) IN o # <<>> /\ o[Len(o)] = "panic"
+        /\ Poll(Line.step.i) /\ UNCHANGED <<tid, seen>>
      \/ /\ Line.e = "t" /\ Line.a = "clear" /\ Line.res = "ok"
         /\ AppClears(Line.i) /\ UNCHANGED <<tid, seen>>
      \/ /\ Line.e = "t" /\ Line.a = "drop_handle" /\ Line.res = "ok"
